@@ -651,8 +651,29 @@ def rule_checkpoints_on_segment(chk, prog):
                                              "returns the checkpoints with codes %s, expected %s" % (got, want))
 
 
+def rule_improver_checkpoints(chk, prog):
+    r = chk.rule("IMPROVER-KEEPS-CHECKPOINTS", "the hyperedge improver (on by default) rewrites the display routes of all connectors attached to "
+                 "junctions from its own tree: to keep a connector's checkpoints on its route it has to read them -- some function of "
+                 "HyperedgeImprover / HyperedgeTreeNode / HyperedgeTreeEdge refers to ConnRef::routingCheckpoints() or m_checkpoints (to leave "
+                 "such hyperedges alone, or to pin the segments that carry a checkpoint)", floor=1)
+    readers = []
+    for f in prog.all_functions():
+        if not f.body or not str(f.q).startswith(("Avoid::HyperedgeImprover::", "Avoid::HyperedgeTreeNode::", "Avoid::HyperedgeTreeEdge::")):
+            continue
+        for n in f.nodes():
+            if n.get("cname") == "Avoid::ConnRef::routingCheckpoints" or (n.get("k") == "MemberExpr" and n.get("ref") in (
+                    "Avoid::ConnRef::m_checkpoints", "Avoid::ConnRef::m_checkpoint_vertices")):
+                readers.append((f, n))
+    r.count()
+    ex = prog.fn("Avoid::HyperedgeImprover::execute")
+    (r.ok if readers else r.bad)("improver reads the checkpoints", readers[0][0].loc(readers[0][1]) if readers else ex.where(), "" if readers else
+                                 "no function of the hyperedge improver ever looks at a connector's checkpoints: the route it writes back for a "
+                                 "junction-attached connector with checkpoints does not visit them")
+
+
 def run(chk):
     prog = chk.load()
+    chk.guard(rule_improver_checkpoints, chk, prog)
     chk.guard(rule_checkpoints_on_segment, chk, prog)
     chk.guard(rule_pin_offer, chk, prog)
     chk.guard(rule_pin_offer_twins, chk, prog)
